@@ -56,6 +56,7 @@ type Prog struct {
 	axTriggers        map[string][]axTrigger
 	privFa            map[string]int
 	StableTypes       []string
+	DesigGroups       map[string][]string
 	muOwner           map[string]muOwnerInfo
 	capImm            map[*ssa.FreeVar]bool
 	stableFa          map[string]int
@@ -362,6 +363,12 @@ func (p *Prog) LoadSpecs(verifDir string) error {
 func (p *Prog) addSpecFile(sf *SpecFile) error {
 	p.SpecFiles = append(p.SpecFiles, sf)
 	p.StableTypes = append(p.StableTypes, sf.Stable...)
+	for m, gs := range sf.Groups {
+		if p.DesigGroups == nil {
+			p.DesigGroups = map[string][]string{}
+		}
+		p.DesigGroups[m] = append(p.DesigGroups[m], gs...)
+	}
 	for _, g := range sf.Ghosts {
 		p.Ghosts[g.Name] = g
 	}
